@@ -97,7 +97,7 @@ func init() {
 		"seeded plans: 1-2 clients (Writer scripts with Write/Flush/Close/Reset/ReadFrom, Reader scripts with Read/WriteTo/early error) with concurrency >= 2, on-block-done handlers, all scheduler policies and pool modes, sink/source faults in a minority; part of the workers run the race-detector build; distinct = distinct plan hash; non-trivial = spawned >= 1 library goroutine")
 	add("C14", "exploration", tierCfg{3600, 2, 180000}, tierCfg{60000, 4, 2400000},
 		"seeded plans: a sequential single-Write reference frame vs variants (concurrency, schedule, Write partition, ReadFrom fragmentation, dirty pool re-issue, concurrent foreign client, handler stalls) and repeated package-level block calls; distinct = distinct plan hash; non-trivial = spawned >= 1 library goroutine or >= 2 writer calls")
-	add("C15", "fault_enumeration", tierCfg{1300, 0, 180000}, tierCfg{16000, 2, 2400000},
+	add("C15", "fault_enumeration", tierCfg{800, 0, 180000}, tierCfg{10000, 2, 2400000},
 		"per generated base plan the failing call index k is enumerated over every sink (source) call of the fault-free run (all k when <= 64 calls, else first/last 16, around every Flush, 32 sampled) x fail/short x once/forever (source: (0,err)/(n,err)); plus fragmentation-invariance groups; distinct = distinct concrete plan hash (fault point inlined); non-trivial = a fault fired")
 	add("C06", "fault_enumeration", tierCfg{500, 0, 180000}, tierCfg{8000, 2, 2400000},
 		"per generated frame every prefix length 1..len-1 (frames <= 2 KiB) or every field boundary +-3 plus 64 sampled offsets, each read with a seeded choice of Reader concurrency, Read/WriteTo, EOF style and fragmentation; distinct = distinct concrete plan hash (cut inlined); non-trivial = the cut fired")
